@@ -145,25 +145,34 @@ def handle (toks : List String) : String :=
     | _ => "bad-op\t-"
   | _ => "bad-op\t-"
 
-partial def loop (h : IO.FS.Stream) (out : IO.FS.Stream) (st : DState) (ap : ApiState) : IO Unit := do
+partial def loop (h : IO.FS.Stream) (out : IO.FS.Stream) (st : DState) (ap : ApiState) (saved : DState := {}) : IO Unit := do
   let line ← h.getLine
   if line.isEmpty then return ()
   let toks := (line.trimAscii.toString.splitOn " ").filter (· ≠ "")
+  -- `snapshot` keeps a copy of the model and reference stores, `rollback` returns to it (the
+  -- harness evaluates several orders of the same requests from one state)
+  if toks == ["snapshot"] then
+    out.putStrLn "ok\t-"; out.flush
+    loop h out st ap st
+  else if toks == ["rollback"] then
+    out.putStrLn "ok\t-"; out.flush
+    loop h out saved ap saved
+  else
   match stepApi ap toks with
   | some (ap', m, s) =>
     out.putStrLn (m ++ "\t" ++ s)
     out.flush
-    loop h out st ap'
+    loop h out st ap' saved
   | none =>
   match stepState st toks with
   | some (st', m, s) =>
     out.putStrLn (m ++ "\t" ++ s)
     out.flush
-    loop h out st' ap
+    loop h out st' ap saved
   | none =>
     out.putStrLn (handle toks)
     out.flush
-    loop h out st ap
+    loop h out st ap saved
 
 end Driver
 
